@@ -21,13 +21,13 @@ CHECKS = {
     ),
     "C12": dict(
         level="other",
-        text="Solver-decided, path-exhaustive within stated bounds (serializer kernel): every data shape up to N nodes (tuple/list/dict nesting with str, int, None and tuple keys) is enumerated and every leaf is symbolic (strings of length 0-2 over digits, '$', letters and the non-ASCII digit U+00B2, unbounded ints, None), as is the format version; the real python_to_json/json_to_python run on the proxies and z3 enumerates all paths; on each, the decoded value must be type-exactly equal, the encoded value JSON-native, and the real json text round trip is executed at the witness.",
-        note="Trusted: z3, CPython, rsx. Covers the data-serializer clause of C12 (every value the serializer accepts round-trips through JSON text); the close/reopen of real pickle files is behind a C boundary (pickle) and is exercised separately, see DESIGN.md.",
+        text="Solver-decided, path-exhaustive within stated bounds (serializer kernel): every data shape up to N nodes (tuple/list/dict nesting with str, int, None and tuple keys) is enumerated and every leaf is symbolic (strings of length 0-2 over digits, '$', letters and the non-ASCII digit U+00B2, unbounded ints, None), as is the format version; the real python_to_json/json_to_python run on the proxies and z3 enumerates all paths; on each, the decoded value must be type-exactly equal, the encoded value JSON-native, and the real json text round trip is executed at the witness. Two further instance families: (history) History._to_/from-data conversion of symbolic histories of 1-2 change sets over the model file system - every Change kind, symbolic contents and descriptions - must reproduce change sets whose undo restores the same symbolic file system; (reopen) a real project on the real file system performs solver-chosen histories, is closed and reopened, and its undo list, redo list and object database must read back equal (the pickle step is concrete: C boundary).",
+        note="Trusted: z3, CPython, rsx, the model file system. Symbolic for the serializer and the history conversion; the close/reopen of real pickle files is behind a C boundary (pickle), so there the solver only chooses which concrete histories are exercised and the claim for that clause is bounded by that choice (stated in the evidence).",
         design="§5 C12",
     ),
     "C06": dict(
         level="other",
-        text="Solver-decided, path-exhaustive within stated bounds (mapping algebra kernel): definition shape and changer pipeline shape are enumerated; parameter names, call keyword names and added names are symbolic (all coincidence patterns explored by z3), positional count, keyword count and every changer argument (index, permutation, default/value presence, autodef) are solver-split integers; rope's real DefinitionInfo._read, CallInfo.read, ArgumentMapping, all five changers and to_call_info/to_string rewrite the def and call texts; at every path witness the interpreter itself binds the original and the rewritten call and each surviving parameter must receive the same value.",
+        text="Solver-decided, path-exhaustive within stated bounds (mapping algebra kernel): definition shape and changer pipeline shape are enumerated; parameter names, call keyword names and added names are symbolic (all coincidence patterns explored by z3), positional count, keyword count and every changer argument (index, permutation, default/value presence, autodef) are solver-split integers; rope's real DefinitionInfo._read, CallInfo.read, ArgumentMapping, all five changers and to_call_info/to_string rewrite the def and call texts; at every path witness the interpreter itself binds the original and the rewritten call and each surviving parameter must receive the same value. A second family (pipeline K06) runs the whole ChangeSignature.get_changes over small projects with symbolic identifier spellings (functions, methods, calls in a second module) and compares program output before and after.",
         note="Trusted: z3, CPython (as the binding oracle), rsx incl. symbolic parse. Valid-request premises are listed in the evidence. Found and fixed two genuine rope defects (see known_findings.json).",
         design="§5 C06",
     ),
@@ -82,7 +82,7 @@ CHECKS = {
     "C04": dict(
         level="other",
         text="Solver-decided, path-exhaustive within stated bounds (Pattern B): inline.create_inline(...).get_changes (InlineMethod/InlineVariable/InlineParameter, _DefinitionGenerator, _InlineFunctionCallsForModuleHandle, functionutils.ArgumentMapping) over corpus K04 (definition with 1-3 call sites in 1-2 modules, positional/keyword/default mixes, methods, variables, parameters) with symbolic identifier spellings: z3 enumerates every capture between the inlined body's parameters/locals and the names at the call sites; the query occurrence and the remove/only_current mode are solver-split. Each result is a refusal or must parse, keep every module importable and print the same output.",
-        note="Trusted: z3, CPython (running the programs), rsx. Ten hazard classes in which rope's textual inlining is wrong are known findings, identified by root-cause tags computed from the failing program; a failure is suppressed only if all its tags are known hazards. Bound: corpus K04, one-letter identifiers.",
+        note="Trusted: z3, CPython (running the programs), rsx. Eleven hazard classes in which rope's textual inlining is wrong are known findings (one more was a crash and is fixed in /repo), identified by root-cause tags computed from the failing program; a failure is suppressed only if all its tags are known hazards. Bound: corpus K04, one-letter identifiers.",
         design="§5 C04",
     ),
     "C07": dict(
@@ -94,7 +94,7 @@ CHECKS = {
     "C05": dict(
         level="other",
         text="Solver-decided, path-exhaustive within stated bounds (Pattern B): move.create_move (MoveGlobal for functions, classes and variables; MoveModule into a package incl. relative imports; MoveMethod), module rename and ModuleToPackage over layouts K05 whose clients reach the moved object through plain, dotted, from, aliased and relative imports; in-module identifier spellings are symbolic, so the moved code's free names colliding with destination names and aliases colliding with locals are solver-explored. Each result is a refusal or must parse, keep every module importable and print the same output through every client import style.",
-        note="Trusted: z3, CPython, rsx. Module/package/file names are concrete. Six hazard classes of MoveGlobal are known findings identified by root-cause tags; a failure is suppressed only if all its tags are known.",
+        note="Trusted: z3, CPython, rsx. Module/package/file names are concrete. Seven hazard classes of MoveGlobal are known findings identified by root-cause tags; a failure is suppressed only if all its tags are known.",
         design="§5 C05",
     ),
     "C17": dict(
